@@ -739,9 +739,12 @@ func TestC33(t *testing.T) {
 	run := ev.Start(t, "C33", "fault_enumeration",
 		"PRNG-generated scripted fault sequences for 1-3 concurrent tag replication tasks (0-4 dependencies, some shared; optional task delay) run by the real retry manager (1-3 incoming / 1-2 retry workers, "+
 			"optional manager restart after k executions): per dependency and origin client 0-2 scripted answers from {network error, 500/502/503/504, 404/400/409, 202 (<=2 per case), ok}, resolver errors, "+
-			"remote Has errors, remote Origin errors, 0-3 remote PutAndReplicate failures, remote already holding the tag. A case is non-trivial when at least one execution met a scripted failure; distinct = distinct case description.")
+			"remote Has errors, remote Origin errors, 0-3 remote PutAndReplicate failures, remote already holding the tag. A case is non-trivial when at least one execution met a scripted failure; distinct = distinct case description. "+
+			"End-to-end phase: 2-3 concurrent tasks sharing a dependency blob replicated through a REAL local origin blobserver (real CAStore, real replicate-to-remote handler and HTTP cluster provider) to a fake remote origin whose upload commits are held open and released in PRNG order or fail once, "+
+			"and a fake remote build-index; non-trivial when a commit of a blob arrived while another commit of the same blob was held, or an upload failed.")
 	defer run.Finish()
 	run.Assume("remote build-index and origin clients are scripted fakes at the outer boundary; a remote Has answer is truthful unless scripted to fail; scripts are finite so every task can finish")
+	run.Assume("end-to-end phase: the remote origin cluster is one httptest host speaking blobclient's chunked upload protocol; the remote build-index is a fake that judges every put against the uploads completed so far; held commits are released every ~12 ms of real time in PRNG order")
 	run.Assume("the retry manager has no clock seam: it runs on real time with 1-3 ms intervals; progress bounds (watchdog 90 s per case) are inconclusive, never violations")
 
 	r := run.Rand("cases")
@@ -833,4 +836,7 @@ func TestC33(t *testing.T) {
 			run.Violation(f.Sig, strconv.Itoa(i), map[string]interface{}{"case": o.spec, "what": f.What, "all_findings": o.findings, "events": o.events})
 		}
 	}
+
+	// second phase: the origin side of the chain is real (see e2e_test.go)
+	runE2EPhase(t, run)
 }
